@@ -160,8 +160,25 @@ func applyPatches(ov map[string]string, dir string, patches []string) {
 	})
 }
 
+// modfileFor copies /repo's go.mod and go.sum next to the build so that the go
+// command (which runs with -mod=mod) can never rewrite the files in /repo.
+func modfileFor(dir string) string {
+	mf := filepath.Join(dir, "go.mod")
+	for _, n := range []string{"go.mod", "go.sum"} {
+		b, err := os.ReadFile(filepath.Join(repo, n))
+		if err != nil {
+			die(2, "%v", err)
+		}
+		os.WriteFile(filepath.Join(dir, n), b, 0o644)
+	}
+	return mf
+}
+
+var currentModfile string
+
 func build(h *Harness, dir string, patches []string) string {
 	os.MkdirAll(dir, 0o755)
+	currentModfile = modfileFor(dir)
 	ov := map[string]string{}
 	addTree(ov, filepath.Join(verif, "lib"), filepath.Join(repo, "verifshim"), true)
 	addTree(ov, filepath.Join(verif, "harness", h.ID), filepath.Join(repo, h.Mount), false)
@@ -179,7 +196,7 @@ func build(h *Harness, dir string, patches []string) string {
 	os.WriteFile(ovf, b, 0o644)
 	bin := filepath.Join(dir, "h")
 	tags := append([]string{"verif"}, h.Tags...)
-	cmd := exec.Command("go", "build", "-tags", strings.Join(tags, ","), "-overlay", ovf, "-o", bin, "./"+h.Mount)
+	cmd := exec.Command("go", "build", "-modfile", currentModfile, "-tags", strings.Join(tags, ","), "-overlay", ovf, "-o", bin, "./"+h.Mount)
 	cmd.Dir = repo
 	cmd.Env = goEnv()
 	out, err := cmd.CombinedOutput()
@@ -360,7 +377,7 @@ func main() {
 		b, _ := json.Marshal(map[string]any{"Replace": ov})
 		ovf := filepath.Join(dir, "overlay.json")
 		os.WriteFile(ovf, b, 0o644)
-		args := append([]string{"test", "-vet=off", "-count=1", "-overlay", ovf}, os.Args[3:]...)
+		args := append([]string{"test", "-modfile", modfileFor(dir), "-vet=off", "-count=1", "-overlay", ovf}, os.Args[3:]...)
 		cmd := exec.Command("go", args...)
 		cmd.Dir = repo
 		cmd.Env = goEnv()
